@@ -180,6 +180,9 @@ class CallMixin:
             env[p] = a
         for n, v in kws.items():
             if n not in params:
+                if fdef.args.kwarg is not None:       # collected by **kw: an opaque mapping
+                    env[fdef.args.kwarg.arg] = VObj('Any', z3.Const(fresh_name('kwargs'), usort('Any')))
+                    continue
                 raise Unsupported("unexpected keyword %s for %s" % (n, fdef.name))
             env[n] = v
         for p in params:
